@@ -21,12 +21,21 @@ RESERVED_GUARDS = ("convert_string::ConvertString::to_valid_key", "convert_strin
 def run(ctx):
     r = ctx.run
     r.explanation = EXPLANATION
-    lib = ctx.lib
+    core(r, ctx.lib)
+
+
+def core(r, lib, struct_name_guards=True):
+    """all rules of the pack; struct_name_guards=False leaves out G2 (the struct-name guards that are known to be
+    missing - known findings of C04) when the pack is evaluated as a necessary condition of C02/C13"""
     R = renderer.Renderer(lib)
     r.ob("A6.renderer-model", "library", R.ok, "renderer recognised" if R.ok else "renderer shape not recognised: %s" % R.problems, key="A6.model")
     if not R.ok:
         return
     b = R.body
+    template_grammar(r, R)
+    map_coverage(r, lib, R)
+    from .c16 import full_traversal
+    full_traversal(r, lib)
     # ---- G1c: field identifier slots come from the identifier map with the right kind
     maps = [cs for cs in b.calls() if cname(cs.node).endswith("identifier::Map::new")]
     okm = len(maps) == 1 and strip(term_of(b, maps[0].node["args"][0])) == ("arg", R.self_arg)
@@ -218,6 +227,9 @@ def run(ctx):
                     uniq_guards.append(cs)
     r.count("functions on the struct-name path", len(path_fns))
     hint_rules(r, lib, path_fns)
+    hint_totality(r, lib, path_fns)
+    if not struct_name_guards:
+        return
     r.ob("G2.reserved-word-guard", "struct-name path", bool(reserved_calls),
          "struct identifiers pass %s" % cname(reserved_calls[0].node) if reserved_calls else
          "no reserved-word / prelude guard on the struct-name path (%s): `<self>` renders `pub struct Self`, elements named String/Vec/Option shadow the types used by sibling fields" % sorted(x.split("::")[-1] for x in path_fns),
@@ -227,6 +239,132 @@ def run(ctx):
          "no enforcing uniqueness guard on the struct-name path (the name hints choose a trace length but give up on ties): siblings `a-b` and `a_b` render `pub struct RAB` twice",
          site=header[0].site if header else None, key="G2.uniqueness-guard|struct-name-path")
     r.trust("convert_string::to_valid_key yields a snake_case non-keyword identifier (dependency, scanned for panics/determinism only)")
+
+
+import re as _re
+
+FIELD_TYPES = ("{}", "String", "Option<{}>", "Option<String>", "Vec<{}>", "Vec<String>", "Option<Vec<{}>>", "Option<Vec<String>>")
+GRAMMAR = {
+    "field": _re.compile(r'^[ \t]*pub \{\}: (%s),\n$' % "|".join(_re.escape(x) for x in FIELD_TYPES)),
+    "rename": _re.compile(r'^[ \t]*#\[serde\(rename = "\{\}"\)\]\n$'),
+    "header": _re.compile(r'^pub struct \{\} \{\n$'),
+    "derive": _re.compile(r'^#\[derive\(\{\}\)\]\n$'),
+}
+
+
+def template_grammar(r, R):
+    """G0: every piece of text the renderer emits is one of the item/field/attribute templates of the output grammar,
+    written out exactly (balanced brackets, separators, line ends), or a closing brace / blank line"""
+    n = 0
+    for e in R.emissions:
+        if e.kind in ("append-acc", "child-structs", "value"):
+            continue
+        n += 1
+        if e.template is not None:
+            g = GRAMMAR.get(e.kind)
+            ok = g is not None and bool(g.match(e.template))
+            txt = e.template
+        else:
+            v = e.value
+            txt = v[1] if v[0] == "const" and isinstance(v[1], str) else term_s(v)[:40]
+            ok = v[0] == "const" and isinstance(v[1], str) and bool(_re.match(r'^(\}\n*|\n*)$', v[1])) and (e.kind != "closer" or v[1].startswith("}\n"))
+        r.ob("G0.template-grammar", "%s: %r" % (R.body.name, txt), ok, "emitted text is a well-formed %s line" % e.kind if ok else
+             "emitted text %r is not one of the output grammar's templates (field / rename / header / derive / closing brace)" % txt, site=e.site,
+             key="G0|%s|%s" % (e.kind, txt))
+    r.ob("G0.template-inventory", R.body.name, n >= 10, "%d textual emissions checked against the output grammar" % n, key="G0|inventory")
+
+
+def map_coverage(r, lib, R):
+    """I1/I2: the identifier map has an entry for every child and every attribute of the element (full traversal,
+    unconditional insert), keyed the way the renderer looks it up"""
+    from .common import normal_form, find_loop_of
+    from .c16 import peel_iter
+    mb = [x for x in lib.real_bodies() if x.name.endswith("identifier::Map::new")]
+    if len(mb) != 1:
+        return
+    m = normal_form(lib, mb[0])
+    b = R.body
+    ins = [cs for cs in m.calls() if cname(cs.node) in ("std::collections::HashMap::insert", "std::collections::BTreeMap::insert")]
+
+    def key_of(body, t):
+        """(kind, stripped name term) of a (name, Type) key"""
+        t = strip(t)
+        if t[0] != "agg":
+            return None, None
+        kk = [strip(v, mir.VALUE_PRESERVING) for v in t[3].values()]
+        kind = next((k[2] for k in kk if k[0] == "agg" and k[1].endswith("identifier::Type")), None)
+        name = next((k for k in kk if not (k[0] == "agg" and k[1].endswith("identifier::Type"))), None)
+        return kind, name
+
+    def shape(t, item_next):
+        """name term with the loop item abstracted: ('const', s) or a tuple of accessors applied to the item"""
+        t = strip(t, mir.VALUE_PRESERVING)
+        if t[0] == "const":
+            return ("const", t[1])
+        acc = []
+        for _ in range(12):
+            t = strip(t, mir.VALUE_PRESERVING)
+            if t[0] == "call" and t[1] == "necessity::Necessity::inner_t" and t[2]:
+                acc.append("inner_t")
+                t = t[2][0]
+            elif t[0] == "proj" and t[1][0] == "call" and len(t[1]) > 3 and t[1][1] == "std::iter::Iterator::next":
+                fs = [e[3] for e in t[2] if e != "*" and e[0] == "f" and e[1] not in ("std::option::Option",)]
+                return ("item", tuple(acc + fs)), t[1][3]
+            elif t[0] == "proj":
+                acc += [e[3] for e in t[2] if e != "*" and e[0] == "f"]
+                t = t[1]
+            else:
+                break
+        return ("other", term_s(t)[:40])
+
+    stored = {}
+    for cs in ins:
+        kind, name = key_of(m, term_of(m, cs.node["args"][1]))
+        if kind is None:
+            continue
+        sh = shape(name, None)
+        lp = find_loop_of(m, cs.bb)
+        if kind in ("ChildElement", "Attribute"):
+            field = "children" if kind == "ChildElement" else "attributes"
+            ok = False
+            why = "the %s entry is not stored inside a loop" % kind
+            if lp is not None and isinstance(sh, tuple) and len(sh) == 2 and isinstance(sh[0], tuple) and sh[0][0] == "item":
+                nxt = sh[1]
+                coll, adapters = peel_iter(term_of(m, nxt.node["args"][0]))
+                fs = [e[3] for e in coll[2] if e != "*" and e[0] == "f"] if coll[0] == "proj" and coll[1] == ("arg", 1) else None
+                g = guards_of(m, cs.bb, within=lp[1])
+                ok = fs == [field] and not adapters and not g and nxt.bb in lp[1]
+                why = "one entry per %s: the loop covers element.%s completely and stores unconditionally" % (kind, field) if ok else \
+                    "the %s entries come from %s via %s under %s: some %s get no identifier" % (kind, fs, [a.split("::")[-1] for a in adapters], [guard_s(x) for x in g], field)
+                stored[kind] = sh[0]
+            r.ob("G1.map-covers-all", "%s: %s entries" % (mb[0].name, kind), ok, why, site=cs, key="G1|covers|%s" % kind)
+        elif kind == "TextContent":
+            stored[kind] = sh
+    # the lookup function itself: the stored key is (the given name, the given kind), nothing transformed
+    for gb in [x for x in lib.real_bodies() if x.name.endswith("identifier::Map::get_name")]:
+        g = normal_form(lib, gb)
+        gets = [cs for cs in g.calls() if cname(cs.node) in ("std::collections::HashMap::get", "std::collections::BTreeMap::get")]
+        ok = len(gets) == 1
+        why = "%d map lookups in get_name" % len(gets)
+        if ok:
+            k = strip(term_of(g, gets[0].node["args"][1]))
+            parts = [strip(v, mir.VALUE_PRESERVING) for v in k[3].values()] if k[0] == "agg" else []
+            ok = sorted(map(str, parts)) == sorted(map(str, [("arg", 2), ("arg", 3)])) and gets[0].node["dest"]["l"] == 0
+            why = "get_name returns the entry stored under exactly (name, kind)" if ok else "get_name looks up %s and not (name, kind) as given" % term_s(k)[:70]
+        r.ob("G1.lookup-is-exact", gb.name, ok, why, site=gets[0] if gets else mir.line_of(gb.span), key="G1|getname")
+    # I2 key agreement with the renderer's lookups
+    for cs in b.calls():
+        if not cname(cs.node).endswith("identifier::Map::get_name"):
+            continue
+        k = strip(term_of(b, cs.node["args"][2]))
+        kind = k[2] if k[0] == "agg" else None
+        sh = shape(term_of(b, cs.node["args"][1]), None)
+        looked = sh[0] if isinstance(sh, tuple) and len(sh) == 2 and isinstance(sh[0], tuple) else sh
+        want = stored.get(kind)
+        ok = want is not None and looked == want
+        r.ob("G1.lookup-key-agrees", "%s: get_name(.., %s)" % (b.name, kind), ok, "looked up by the key the map stores (%s)" % (looked,) if ok else
+             "the renderer looks up %s entries by %s, the map stores them under %s: the lookup misses and the unguarded raw name is emitted" % (kind, looked, want), site=cs,
+             key="G1|keyagree|%s" % kind)
 
 
 def _value_sources(b, t, depth=0):
@@ -390,6 +528,94 @@ def hint_rules(r, lib, path_fns):
          "a shorter qualification is accepted only when the set of all candidate names has as many members as there are candidates" if found else
          "no `all candidates pairwise distinct` test (set cardinality == number of candidates) guards the choice of the qualification length",
          key="H1|distinct")
+
+
+def hint_totality(r, lib, path_fns):
+    """H4: every element of the tree gets a name hint (a missing hint renders an empty struct name): the recursive
+    collector records the element on every path and descends into all children unconditionally; the hint table gets an
+    entry >= 1 for every collected name"""
+    from .common import find_loop_of
+    from .c16 import peel_iter
+    MAPS = ("std::collections::HashMap", "std::collections::BTreeMap")
+    REC = ("push", "push_back", "push_front", "insert", "extend")
+    collectors = []
+    for n in sorted(path_fns):
+        bd = lib.bodies[n]
+        if bd.kind == "closure" or not any(c.node["callee"].get("path") == bd.name for c in bd.calls()):
+            continue
+        f = lib.fns.get(n, {})
+        tables = [i + 1 for i, t in enumerate(f.get("inputs", [])) if t.get("adt") in MAPS and t.get("s", "").startswith("&mut")]
+        if tables and any(t.get("adt") == "element::Element" for t in f.get("inputs", [])):
+            collectors.append((bd, tables[0]))
+    r.ob("H4.collector", "struct-name path", len(collectors) == 1, "the recursive collector of (name, trace) pairs is %s" % collectors[0][0].name if len(collectors) == 1 else
+         "expected one recursive collector filling a name table, found %s" % [c[0].name for c in collectors], key="H4|collector")
+    for bd, tab in collectors:
+        recs = set()
+        for cs in bd.calls():
+            if method(cs.node) in REC and cs.node["args"] and is_mut_ref(arg_ty(bd, cs.node["args"][0])):
+                org = bd.origins(cs.node["args"][0], transparent=lambda t: True)
+                if any(o[0] == "arg" and o[1] == tab for o in org):
+                    recs.add(cs.bb)
+        free = bd.reach_from(0, avoid=recs)
+        ok = bool(recs) and not (set(bd.return_blocks()) & free)
+        r.ob("H4.every-element-recorded", bd.name, ok, "every path through the collector adds the element's trace to the name table" if ok else
+             "some path through the collector records nothing (%d recording sites): that element gets no hint and an empty struct name" % len(recs),
+             site=mir.line_of(bd.span), key="H4|recorded")
+        for cs in bd.calls():
+            if cs.node["callee"].get("path") != bd.name:
+                continue
+            lp = find_loop_of(bd, cs.bb)
+            okl = False
+            why = "the recursive call is not inside a loop over the children"
+            if lp is not None:
+                nx = [c for c in bd.calls() if cname(c.node) == "std::iter::Iterator::next" and c.bb in lp[1] and find_loop_of(bd, c.bb)[0] == lp[0]]
+                if len(nx) == 1:
+                    coll, adapters = peel_iter(term_of(bd, nx[0].node["args"][0]))
+                    fs = [e[3] for e in coll[2] if e != "*" and e[0] == "f"] if coll[0] == "proj" and coll[1][0] == "arg" else None
+                    g = guards_of(bd, cs.bb, within=lp[1])
+                    okl = fs == ["children"] and not adapters and not g
+                    why = "descends into every child unconditionally" if okl else "recursion over %s via %s under %s" % (fs, [a.rsplit("::", 1)[-1] for a in adapters], [guard_s(x) for x in g])
+            r.ob("H4.descends-into-all-children", bd.name, okl, why, site=cs, key="H4|descend")
+    # the hint table itself
+    from .common import normal_form
+    for n in sorted(path_fns):
+        out = lib.fns.get(n, {}).get("output", {})
+        if not (out.get("adt") in MAPS and "usize" in out.get("s", "")):
+            continue
+        bd = normal_form(lib, lib.bodies[n], also=lambda cb, t: cb.name not in path_fns or cb.kind == "closure")
+        ins = [cs for cs in bd.calls() if method(cs.node) == "insert" and cname(cs.node).startswith(MAPS) and "usize" in arg_ty(bd, cs.node["args"][0]).get("s", "")]
+        loops = {}
+        for cs in ins:
+            lp = find_loop_of(bd, cs.bb)
+            if lp is not None:
+                loops.setdefault(lp[0], (lp, []))[1].append(cs)
+        ok = len(loops) == 1
+        why = "%d loops fill the hint table" % len(loops)
+        site = ins[0] if ins else mir.line_of(bd.span)
+        if ok:
+            lp, sites = next(iter(loops.values()))
+            nx = [c for c in bd.calls() if cname(c.node) == "std::iter::Iterator::next" and c.bb in lp[1] and find_loop_of(bd, c.bb)[0] == lp[0]]
+            okn = False
+            if len(nx) == 1:
+                coll, adapters = peel_iter(term_of(bd, nx[0].node["args"][0]))
+                while coll[0] == "call" and coll[1].rsplit("::", 1)[-1] in ("iter", "keys", "into_iter", "iter_mut") and coll[2]:
+                    coll = strip(coll[2][0])
+                okn = not adapters and (arg_ty(bd, {"copy": {"l": coll[1], "p": []}} if coll[0] == "local" else {}).get("adt") in MAPS or coll[0] in ("local", "call"))
+                sw = mir.switch_enum(bd, bd.succs(nx[0].bb)[0])
+                start = mir.variant_target(sw, bd, "Some") if sw else None
+                blocks = {c.bb for c in sites}
+                free = bd.reach_from(start, avoid=blocks) if start is not None else {lp[0]}
+                every = lp[0] not in free and not any(x not in lp[1] for x in free)
+            ok = okn and len(nx) == 1 and every
+            why = "every collected name gets an entry (whole table traversed, an insert on every path of the loop body)" if ok else \
+                "the hint table is not filled for every collected name (plain traversal=%s, insert on every path=%s)" % (okn, len(nx) == 1 and every)
+        r.ob("H4.hint-for-every-name", bd.name, ok, why, site=site, key="H4|total")
+        for cs in ins:
+            v = strip(term_of(bd, cs.node["args"][2]))
+            if v[0] == "const":
+                okv = isinstance(v[1], int) and v[1] >= 1
+                r.ob("H4.hint-at-least-one", bd.name, okv, "constant hint %r keeps at least the element's own name" % (v[1],) if okv else
+                     "constant hint %r: expand_name would take no trace segment and render an empty struct name" % (v[1],), site=cs, key="H4|const|%s" % (v[1],))
 
 
 def _closure_calls(lib, t):
